@@ -543,6 +543,93 @@ def hist_task(mode):
     return mode, nseq, ntr, failures, len(obs), len(events)
 
 
+# ------------------------------------------------------------------ alias family: the slot's default content handed on through `default=`
+# The program profile above has no `default="d"` alias (use_alias=False).  This family places `{{ d }}` in every position of a fill:
+# directly, in the implicit body of a nested component, in a fill of a nested component, in both - with a slot default that
+# holds a component (under a provider or not).  Oracle: a successful render leaves every registry empty, repeating it does not
+# grow anything, and each component of the default content is prepared exactly as often as it is rendered.
+ALIAS_DEFAULTS = {"text": "D", "component": "{% component 'al_leaf' / %}", "provided_component": "{% provide 'k' v='x' %}{% component 'al_leaf' / %}{% endprovide %}"}
+ALIAS_USES = {
+    "direct": "[{{ d }}]",
+    "twice": "[{{ d }}{{ d }}]",
+    "in_implicit_body": "{% component 'al_wrap' %}{{ d }}{% endcomponent %}",
+    "in_nested_fill": "{% component 'al_wrap' %}{% fill 'content' %}{{ d }}{% endfill %}{% endcomponent %}",
+    "in_provider_wrap_body": "{% component 'al_pwrap' %}{{ d }}{% endcomponent %}",
+    "two_levels": "{% component 'al_wrap' %}{% component 'al_wrap' %}{{ d }}{% endcomponent %}{% endcomponent %}",
+    "unused": "[unused]",
+}
+
+
+def alias_task(mode):
+    from django.template import Context, Template
+
+    from django_components import Component
+    from django_components.component_registry import registry
+
+    boot.set_components_setting(context_behavior=mode)
+    agg = par.Agg()
+    prepared = [0]
+
+    def leaf_gcd(self, **kw):
+        prepared[0] += 1
+        o = self.inject("k", 0)
+        return {"v": o and o.v}
+
+    for dname, dflt in ALIAS_DEFAULTS.items():
+        comps = {
+            "al_leaf": ("(leaf{{ v }})", leaf_gcd),
+            "al_x": ("<x>{% slot 's' %}" + dflt + "{% endslot %}</x>", None),
+            "al_wrap": ("<w>{% slot 'content' default / %}</w>", None),
+            "al_pwrap": ("{% provide 'k' v='w' %}<w>{% slot 'content' default / %}</w>{% endprovide %}", None),
+        }
+        for n, (tpl, gcd) in comps.items():
+            if n in registry.all():
+                registry.unregister(n)
+            attrs = {"template": tpl, "__module__": "verif_c06a"}
+            if gcd:
+                attrs["get_context_data"] = gcd
+            registry.register(n, type("AL_" + n, (Component,), attrs))
+        for uname, use in ALIAS_USES.items():
+            for outer in ("page", "in_component"):
+                page = "{% component 'al_x' %}{% fill 's' default='d' %}" + use + "{% endfill %}{% endcomponent %}"
+                if outer == "in_component":
+                    page = "{% component 'al_wrap' %}" + page + "{% endcomponent %}"
+                t = Template(page)
+                boot.clear_render_registries()
+                agg.states += 1
+                agg.nontrivial += 1 if dname != "text" else 0
+                agg.expected[f"{dname}/{uname}"] += 1
+                ident = f"{mode}:alias:{dname}:{uname}:{outer}"
+                case = {"part": "alias", "mode": mode, "default": dname, "use": uname, "outer": outer, "page": page}
+                try:
+                    prepared[0] = 0
+                    out1 = norm(t.render(Context({})))
+                    n_prepared = prepared[0]
+                    agg.transitions += 1
+                except Exception as e:  # noqa
+                    boot.clear_render_registries()
+                    agg.fail(ident + ":error", f"[{mode}] page {page!r} (slot default {dflt!r}) raised {type(e).__name__}: {str(e)[:200]}", case)
+                    continue
+                agg.validated += 1
+                agg.observe((dname, uname, out1))
+                n_rendered = out1.count("(leaf")
+                snap = {k: v for k, v in boot.registries_snapshot().items() if v}
+                if snap:
+                    agg.fail(ident + ":registry-residue", f"[{mode}] page {page!r} (slot default {dflt!r}) rendered {out1!r}; registries afterwards: {snap}", case)
+                    boot.clear_render_registries()
+                if n_prepared != n_rendered:
+                    agg.fail(ident + ":prepared-not-rendered", f"[{mode}] page {page!r} (slot default {dflt!r}): get_context_data of the default content's component ran "
+                             f"{n_prepared} time(s), the output holds it {n_rendered} time(s): {out1!r}", case)
+                outs = {norm(t.render(Context({}))) for _ in range(2)}
+                agg.transitions += 2
+                if outs != {out1}:
+                    agg.fail(ident + ":repeat-differs", f"[{mode}] page {page!r}: repeated renders give {sorted(outs)}, the first gave {out1!r}", case)
+                boot.clear_render_registries()
+        for n in comps:
+            registry.unregister(n)
+    return mode, agg
+
+
 def run(ctx):
     ev = ctx.ev
     b = bounds(ctx.tier)
@@ -556,6 +643,12 @@ def run(ctx):
         ev.add_part(f"histories_{mode}", states=nseq, transitions=ntr, validated=ntr, nontrivial=nseq, observed_distinct=nobs,
                     bound={"depth": 3, "events": nevents}, samples=[{"mode": mode, "history": [[0, -1], [1, 1], [0, -1]]}])
         ctx.fnd.merge_reports(failures)
+    for mode, agg in par.run_tasks(alias_task, ["django", "isolated"]):
+        ev.add_part(f"alias_family_{mode}", states=agg.states, transitions=agg.transitions, validated=agg.validated, nontrivial=agg.nontrivial,
+                    observed_distinct=len(agg.observed), expected=agg.expected,
+                    bound={"slot_defaults": list(ALIAS_DEFAULTS), "uses_of_the_alias": list(ALIAS_USES), "outer": ["page", "in_component"]},
+                    samples=[{"page": "{% component 'al_x' %}{% fill 's' default='d' %}{% component 'al_wrap' %}{{ d }}{% endcomponent %}{% endfill %}{% endcomponent %}"}])
+        ctx.fnd.merge_reports(agg.failures)
     ev.assumptions = ["fault sites are the harness's own callbacks (tag at every nodelist position, hooks, get_context_data, slot functions); "
                       "built-in Django tag failures are represented by the {% tick %} tag",
                       "liveness judged by weakref + gc.collect() x3 with the exception object dropped"]
@@ -566,6 +659,11 @@ def replay(ctx, case):
 
     mode = case["mode"]
     boot.set_components_setting(context_behavior=mode)
+    if case.get("part") == "alias":
+        _, agg = alias_task(mode)
+        for f in agg.failures[:10]:
+            print(f[1])
+        return not agg.failures
     if case.get("part") == "history":
         _, nseq, ntr, failures, _, _ = hist_task(mode)
         for f in failures:
